@@ -3,7 +3,8 @@
 // Whole *programs* of scripted tests are run through a private TestRegistry with the real
 // MemoryLeakWarningPlugin on the GLOBAL detector, allocating through the real overloaded
 // operators (new / new[] / nothrow / located forms / typed new-expression, cpputest_malloc /
-// calloc / strdup / strndup / realloc). Blocks live in a slot table that survives across tests,
+// calloc / strdup / strndup / realloc) — or, see "Detector configurations" below, with the plugin
+// on a detector of its own, or with one plugin on each. Blocks live in a slot table that survives across tests,
 // so a test can free or realloc blocks of earlier tests.
 //
 // Oracle: the harness keeps its own ledger of every block it allocated (allocation number read
